@@ -52,13 +52,33 @@ Definition model (c : case) : outcome :=
   let '(k, pa, pb, tr) := run_sched (c_sched c) (c_k0 c) ca cb in
   MkOut k (pc_calls pa) (pc_calls pb) (negb (pc_failed pa)) (negb (pc_failed pb)) tr.
 
+(* the later umount -all against the machine's.  Without a covered line ([ncov]) no call fails and
+   the result is exactly [later_umount_all].  With one (a second overlay stacked on a build root
+   over the imports mounted inside the first: known finding 1) umount(2) of the hidden mountpoint
+   fails and the command stops there; which lines it removed before depends on the order of the
+   layers, so only this is required: what is left was there before (as a multiset) and something
+   is left. *)
+Fixpoint remove_one (p : bytes) (t : ktab) : option ktab :=
+  match t with
+  | [] => None
+  | x :: r => if beq x p then Some r else match remove_one p r with Some r' => Some (x :: r') | None => None end
+  end.
+Fixpoint submultiset (a b : ktab) : bool :=
+  match a with
+  | [] => true
+  | x :: r => match remove_one x b with Some b' => submultiset r b' | None => false end
+  end.
+Definition later_corr (final rest : ktab) : bool :=
+  if ncov final then ktab_eq (later_umount_all final) rest
+  else submultiset rest final && match rest with [] => false | _ => true end.
+
 Definition corr (c : case) : bool :=
   let m := model c in
   ktab_eq (o_final m) (c_final c)
   && list_beq call_beq (o_calls_a m) (c_calls_a c) && list_beq call_beq (o_calls_b m) (c_calls_b c)
   && Bool.eqb (o_ok_a m) (c_ok_a c) && Bool.eqb (o_ok_b m) (c_ok_b c)
   (* the later, undisturbed umount -all: deepest first, one umount(2) per line of the table *)
-  && ktab_eq (later_umount_all (c_final c)) (c_rest c).
+  && later_corr (c_final c) (c_rest c).
 
 (* the property: the final table is one some serial order of the two commands produces; in
    particular no mountpoint ends up with two stacked mounts *)
